@@ -103,14 +103,16 @@ Section RT.
     end.
 
   (* scalars, enums by name and by value, Array/Deque of the fragment, Map from plain scalars to the
-     fragment, nested structures, AnyOf (Optional included) over ANY options provided the value
-     distinguishes them ([wfv]) *)
+     fragment, Set of the fragment, Tuple of plain scalars, nested structures, AnyOf (Optional included) over
+     ANY options provided the value distinguishes them ([wfv]) *)
   Fixpoint frag (f : field) : bool :=
     match f with
     | FSeqEach _ g _ _ => frag g
     | FMapKV kf vf _ => plain_scalar kf && frag vf
     | FClassRef _ => true
     | FAnyOf _ => true          (* the conditions on the options are on the VALUE: see [wfv] *)
+    | FSet false (Some g) _ => frag g                 (* Set[g]; an ImmutableSet comes back as a plain set *)
+    | FTuple items _ => forallb plain_scalar items    (* Tuple over plain scalars, positional or homogeneous *)
     | _ => scalar_frag f
     end.
 
@@ -128,6 +130,18 @@ Section RT.
     Variable canon' : pyval -> Prop.          (* canonical nested instances (one level less fuel) *)
     Variable recS : pyval -> res pyval.
     Variable recD : bool -> pystr -> pyval -> res pyval.
+
+    (* a stored value of a plain scalar declaration; the elements of a tuple against its item declarations: positions
+       beyond the declared ones (a homogeneous Tuple[T] holding more than one element) are appended RAW by the
+       deserializer, so they must be JSON scalars already *)
+    Definition wfv_plain (g : field) (x : pyval) : Prop :=
+      validate_weak re_match e g x = Ok tt /\ json_scalar x = true /\ x <> PNone.
+    Fixpoint tuple_wf (gs : list field) (xs : list pyval) : Prop :=
+      match gs, xs with
+      | [], _ => Forall (fun x => json_scalar x = true /\ x <> PNone) xs
+      | _ :: _, [] => False
+      | g :: gs', x :: xs' => wfv_plain g x /\ tuple_wf gs' xs'
+      end.
 
     (* "this option does not match, try the next one": any Python exception, of whatever class *)
     Definition rejects {A} (r : res A) : Prop := exists x, r = Raise x /\ model_exn x = false.
@@ -148,6 +162,9 @@ Section RT.
           exists kv, v = PDict kv /\ Forall (fun p => wfv kf (fst p) /\ wfv vf (snd p)) kv /\
                      fresh_keys [] (map fst kv) = true
       | FClassRef c => (exists a, v = PStruct c a) /\ canon' v
+      | FSet false (Some g) _ =>
+          exists l, v = PSet false l /\ Forall (wfv g) l /\ py_dedup l = l /\ forallb py_hashable l = true
+      | FTuple items _ => exists l, v = PTuple l /\ tuple_wf items l
       | FAnyOf fs =>
           (* v is a value of one option g (the i-th) of the fragment, and it DISTINGUISHES the options: every option
              listed before g rejects v on the way out and rejects the serialized v on the way in (such an option need
@@ -196,7 +213,8 @@ Section RT.
     Lemma rt_val : forall f, frag f = true -> forall v, wfv f v -> rt_goal f v.
     Proof.
       induction f using field_ind'; intros Hf v Hw; try (cbn in Hf; discriminate);
-        try (apply rt_plain; [reflexivity | exact Hw]).
+        try (apply rt_plain; [reflexivity | exact Hw]);
+        try (destruct i; cbn in Hf; try discriminate).
       - (* FEnumLit *)
         destruct Hw as (Hin & Hok). exists v. cbn [ser_val].
         repeat split; auto using json_scalar_pure, json_value_ok_scalar, json_value_ok_not_none.
@@ -233,6 +251,59 @@ Section RT.
         split; [discriminate|].
         intros ku ign. destruct ku, k, ign; cbn [deser_val list_like]; cbn beta iota;
           rewrite ?H3, ?H3'; reflexivity.
+      - (* FSet false (Some f) *)
+        cbn [frag] in Hf. cbn [wfv] in Hw. destruct Hw as (l & -> & Hl & Hdd & Hh).
+        assert (HF : forall ku, exists js, mapR (ser_val re_match e ens recS f) l = Ok js /\
+                       Forall (fun j => json_pure j = true) js /\
+                       mapR (fun j => rewrap (deser_val re_match e ens recD ku false f j)) js = Ok l).
+        { intro ku. apply mapR_rt. eapply Forall_impl; [|exact Hl]. intros x Hx.
+          destruct (IHf Hf x Hx) as (j & H1 & H2 & _ & H4).
+          exists j. rewrite H4. split; [exact H1|]. split; [exact H2|reflexivity]. }
+        destruct (HF true) as (js & H1 & H2 & H3).
+        destruct (HF false) as (js' & H1' & _ & H3').
+        rewrite H1 in H1'. inversion H1'; subst js'.
+        exists (PList js). unfold rt_goal. cbn [ser_val unless_none ser_each iter_items]. rewrite H1. cbn [bind].
+        split; [reflexivity|]. split.
+        { cbn [json_pure]. apply forallb_forall. intros y Hy. rewrite Forall_forall in H2. auto. }
+        split; [discriminate|].
+        intros ku ign. destruct ku, ign; cbn [deser_val list_like]; cbn beta iota zeta;
+          rewrite ?H3, ?H3'; cbn [bind build_seq]; rewrite Hh, Hdd; reflexivity.
+      - (* FTuple *)
+        cbn [frag] in Hf. cbn [wfv] in Hw. destruct Hw as (l & -> & Hl).
+        (* every element is a JSON scalar: serialized as it is, with or without its declaration *)
+        assert (Hsc : forall gs xs, tuple_wf gs xs -> Forall (fun x => json_scalar x = true /\ x <> PNone) xs).
+        { induction gs as [|g gs IHg]; intros [|x xs] Hw; cbn [tuple_wf] in Hw; auto; try contradiction.
+          destruct Hw as ((_ & Ha & Hb) & Hw). constructor; auto. }
+        assert (Hany : forall xs, Forall (fun x => json_scalar x = true /\ x <> PNone) xs -> mapR (ser_any recS) xs = Ok xs).
+        { induction 1 as [|x xs (Ha & _) _ IHx]; [reflexivity|]. cbn [mapR]. rewrite IHx.
+          destruct x as [| | [] | | | | | | | | |]; try discriminate; reflexivity. }
+        pose proof (Hsc _ _ Hl) as Hall.
+        exists (PList l). unfold rt_goal. cbn [ser_val unless_none ser_plain_seq ser_each iter_items].
+        rewrite (Hany l Hall). cbn [bind]. split; [reflexivity|]. split.
+        { cbn [json_pure]. apply forallb_forall. intros y Hy. rewrite Forall_forall in Hall.
+          apply json_scalar_pure. apply Hall. exact Hy. }
+        split; [discriminate|].
+        intros ku ign.
+        assert (Hpos : forall gs xs, forallb plain_scalar gs = true -> tuple_wf gs xs ->
+                  (fix pos (fs0 : list field) (vs : list pyval) {struct fs0} : res (list pyval) :=
+                     match fs0 with
+                     | [] => Ok vs
+                     | g :: fs' =>
+                         match vs with
+                         | [] => Raise IndexError
+                         | x :: vs' =>
+                             y <- rewrap (deser_val re_match e ens recD ku false g x) ;;
+                             ys <- pos fs' vs' ;; Ok (y :: ys)
+                         end
+                     end) gs xs = Ok xs).
+        { induction gs as [|g gs IHg]; intros xs Hp Hw; [reflexivity|].
+          cbn [forallb] in Hp. apply andb_true_iff in Hp as [Hp1 Hp2].
+          destruct xs as [|x xs]; cbn [tuple_wf] in Hw; [contradiction|]. destruct Hw as (Hx & Hw).
+          destruct (rt_plain g x Hp1) as [(jx & Hs1 & _ & _ & Hd1) Hsx].
+          { destruct g; try discriminate; exact Hx. }
+          rewrite Hsx in Hs1. inversion Hs1; subst jx.
+          rewrite Hd1. cbn [rewrap bind]. rewrite (IHg xs Hp2 Hw). reflexivity. }
+        destruct ign; cbn [deser_val list_like]; cbn beta iota zeta; rewrite (Hpos fs l Hf Hl); reflexivity.
       - (* FMapKV *)
         cbn [frag] in Hf. apply andb_true_iff in Hf as [Hk Hv].
         destruct Hw as (kv & -> & Hkv & Hfresh).
@@ -335,6 +406,9 @@ Section RT.
       - destruct Hw as (_ & H). now apply json_value_ok_not_none.
       - destruct Hw as (n & x & -> & _). discriminate.
       - destruct Hw as (l & -> & _). destruct k; discriminate.
+      - destruct immutable_set; [discriminate|]. destruct item; [|discriminate].
+        destruct Hw as (l & -> & _). discriminate.
+      - destruct Hw as (l & -> & _). discriminate.
       - destruct Hw as (kv & -> & _). discriminate.
       - destruct Hw as (H & _). exact H.
       - destruct Hw as ((a & ->) & _). discriminate.
